@@ -410,7 +410,7 @@ TB = ("Trusted: Coq 8.16.1 kernel (vm_compute, no native_compute), no axioms (Pr
       "ExtrOcamlBasic extraction + hand-written OCaml driver, the Rust harness and Python generators/oracles. ")
 
 MANIFEST = dict(
-    text="Proved (19 theorems in Properties/C19.v, none partial) about executable Gallina models of texture_decoder.rs, etc1.rs, pixel_encodings.rs, "
+    text="Proved (28 theorems in Properties/C19.v, all closed, none partial) about executable Gallina models of texture_decoder.rs, etc1.rs, pixel_encodings.rs, "
          "texture_utils.rs and the CI8 path of tpl.rs: TILE_ORDER is the Morton order; for every listed raw format and EVERY width/height that is a "
          "multiple of 8 (w*h < 2^32) pixel (X,Y) is decode_color of the element at its Z-order index, in both arithmetic modes; every channel of all "
          "65536 values per format is within one quantisation step of the linear expansion (exact for 8/4/1-bit fields); the ETC1 block decoder equals a "
